@@ -163,6 +163,52 @@ prop(
     min_counters={"quick": {"saved_images_decoded": 5000}, "thorough": {"saved_images_decoded": 100000}},
 )
 
+prop(
+    "C04",
+    title="Rejected operations change nothing",
+    technique="before/after snapshot runtime monitor around ~90 families of deliberately invalid calls at random reachable states: live observation, reopened observation and independently decoded file must all equal the pre-call state",
+    rule="random states (3-14 valid operations, optional reopen) x invalid-call families: name checks, column-list checks, LATE create_table failures (33-64 char column "
+         "names, 33-60 char table names, enum sets over 255 chars, bad foreign keys, ranges with i32::MIN, unrepresentable widths), drop/insert/update/delete/select/stream "
+         "calls with unknown/invalid/reserved names, wrong arity, invalid value in first/last batch row, duplicate keys vs existing rows and within the batch, key-collision "
+         "updates; each family also in isolation on fresh states; distinct = (family, table count, row-count class); non-trivial = the call returned Err and all three comparisons ran",
+    level_text="The monitor only binds calls that actually returned Err; for those it compares the complete API snapshot, the snapshot after flush+reopen, and the "
+               "independent decoder's string accounting (no pool entry, catalog row or text of the rejected call may exist).",
+    level_note="A call the generator meant to be invalid but the library accepts is counted (unexpected_ok) and left to C06/C07.",
+    assumptions=[TRUST_CFB, TRUST_CODEC],
+    design_ref="3/C04",
+    min_counters={"quick": {"rejected_calls": 5000, "isolated_family_runs": 150}, "thorough": {"rejected_calls": 100000}},
+)
+
+prop(
+    "C06",
+    title="A created table reopens with the schema it was created with",
+    technique="schema round-trip runtime monitor: every attribute getter compared immediately and after flush+reopen, foreign keys read from _Validation; single-attribute sweeps, pairwise combinations, random column lists",
+    rule="374 single-attribute sweeps (widths 0..65536, 26 categories x 4 column kinds, enumerations incl. separators/empty/255-256 joined, ranges over boundary integers, "
+         "foreign keys, 8 flag combinations x 3 types, 1/2/31/32 columns, name lengths 1..65), pairwise combinations (1/97 slice quick, 1/3 thorough), random lists of 1-32 columns; "
+         "distinct = (kind, per-column attribute shape); non-trivial = create_table returned Ok and both comparisons ran (Err = refused, admissible)",
+    level_text="Every accepted definition is read back through the public getters right after create_table and again from a reopened copy of the flushed bytes.",
+    level_note="Err is admissible for C06 (refused rather than altered); that a refusal leaves nothing behind is decided by C04.",
+    assumptions=[TRUST_CFB],
+    design_ref="3/C06",
+    min_counters={"quick": {"accepted": 1500, "sweep_tables": 370}, "thorough": {"accepted": 50000}},
+)
+
+prop(
+    "C07",
+    title="Rows are accepted exactly when every value is valid for its column",
+    technique="differential runtime monitor vs a hand-written reference validity predicate, at the pure-predicate level (bounded-exhaustive strings / boundary integers) and at the live insert/update gate",
+    rule="all strings up to length 5-7 over per-category adversarial alphabets (identifier/property/cabinet, version, language, upper/lower), signed/zero-padded integer "
+         "texts around the 16/32-bit limits, a GUID with every position mutated, widths at w-1/w/w+1 with multi-byte characters, integers within +-2 of every boundary and "
+         "declared bound, random Unicode strings; then ~13k inserts + ~10k updates on a live package, arity 0..33; distinct = (category, verdict, length, character-class mask) "
+         "resp. (column shape, value shape); non-trivial = library and reference were both evaluated",
+    level_text="Both Category::validate / Column::is_valid_value and the Ok/Err of insert_rows / update_rows are compared with a predicate written from the documentation; "
+               "spots the documentation leaves open are marked Unspecified and accept either answer.",
+    level_note="Unspecified: explicit '+' in version/language/integer texts, cabinet name lengths with non-ASCII characters.",
+    assumptions=[TRUST_MODEL],
+    design_ref="3/C07",
+    min_counters={"quick": {"gate_inserts": 5000, "gate_updates": 3000}, "thorough": {"gate_inserts": 20000}},
+)
+
 ALL_IDS = ["C%02d" % i for i in range(1, 21)]
 
 
